@@ -17,7 +17,7 @@ MANIFEST = {
     "C09": dict(
         technique="Lean 4 proof: progress lemma on the queue invariant (drained queue publishes, reload grants any n ≤ capacity); extraction of the drain rule; differential correspondence + drained-state probes on the real queue",
         text="Machine-checked proof that in every reachable drained state commit_read publishes the reader position and a producer reload of the newest value is followed by a grant for every 0 < n ≤ capacity (so no stall on an empty queue), plus a proved counter-witness for the batching-only rule of the pinned tree (finding F3, repaired by a fix: commit). Tied to the code by extracting the drain rule from commit_read, by differential execution of the real queue against the model (every grant/deny and every publication compared) and by probing every drained state the generator reaches with boundary sizes. The end-to-end retry loop is covered by the backend checks.",
-        note="End to end on the backend model (prover bundle B, audited by this check): C09_drain_publishes (after quiet polls past the grace period the caller's context is drained AND its reader position published), C09_blocked_call_resumes (a call parked on the retry of a refused reservation that fits the capacity is granted at its next retry: the statement is appended to the accepted history and the call returns ret=1), C09_call_after_drain_accepted (a new call after the drain is accepted on either queue type, never dropped), C09_drain_rule_needed (decide: without the publish-when-drained rule, F3, the retry is refused for ever on an empty queue); hypothesis ReadsCommitted = the model's read loop did not run out of fuel. Queue level in this check; 'finitely many polls' relies on the fairness assumption that a store eventually becomes visible to an acquire load.",
+        note="End to end on the backend model (prover bundle B, audited by this check): C09_drain_publishes (after quiet polls past the grace period the caller's context is drained AND its reader position published), C09_blocked_call_resumes (a call parked on the retry of a refused reservation that fits the capacity is granted at its next retry: the statement is appended to the accepted history and the call returns ret=1), C09_call_after_drain_accepted (a new call after the drain is accepted on either queue type, never dropped), C09_drain_rule_needed (decide: without the publish-when-drained rule, F3, the retry is refused for ever on an empty queue); C09_reads_committed (every reachable state, arbitrary injections: a context with nothing left to read has its reader position published, so no hypothesis on the prefix schedule is left). Queue level in this check; 'finitely many polls' relies on the fairness assumption that a store eventually becomes visible to an acquire load.",
         ref="§5 C09, §7 F3"),
 }
 
